@@ -128,12 +128,16 @@ func FilterPodsForOrderedUpdate(pods []*corev1.Pod, ctx *batchcontext.BatchConte
 	}
 
 	diff := ctx.PlannedUpdatedReplicas - needUpdate
-	if diff <= 0 {
-		return append(highPriorityPods, terminatingPods...)
+	lastIndex := integer.Int32Min(integer.Int32Max(diff, 0), int32(len(lowPriorityPods)))
+	selected := append(highPriorityPods, lowPriorityPods[:lastIndex]...)
+	// pods already labelled for this release always reach the patcher,
+	// otherwise the budget of their batch would be handed out again.
+	for _, pod := range lowPriorityPods[lastIndex:] {
+		if pod.Labels[v1beta1.RolloutIDLabel] == ctx.RolloutID {
+			selected = append(selected, pod)
+		}
 	}
-
-	lastIndex := integer.Int32Min(diff, int32(len(lowPriorityPods)))
-	return append(append(highPriorityPods, lowPriorityPods[:lastIndex]...), terminatingPods...)
+	return append(selected, terminatingPods...)
 }
 
 func sortPodsByOrdinal(pods []*corev1.Pod) {
